@@ -85,7 +85,8 @@ func draw(t *rapid.T) Case {
 			}
 		}
 	}
-	return Case{D: d.Text(false), P1: p1.Text(false), P2: p2.Text(false)}
+	p1t, p2t := gen.Texts(t, p1, p2, false, "sp")
+	return Case{D: d.Text(false), P1: p1t, P2: p2t}
 }
 
 func check(c Case) ev.Verdict {
